@@ -83,3 +83,17 @@ func init() {
 		},
 	}
 }
+
+func init() {
+	table["C02"] = propSpec{
+		Level: "fault_enumeration",
+		Rule:  "evaluations = tamper trials; distinct_nontrivial = distinct (direction, operator, kind of the first altered AEAD unit, fallback, outcome) classes",
+		Assumptions: append([]string{
+			"pure truncation at an AEAD unit boundary (or right after a length unit) may surface as EOF or unexpected-EOF: it is indistinguishable from a genuine close",
+			"a cut after the fixed-length header chunk is an authentic incomplete request, not a failed authentication",
+		}, commonAssume...),
+		Parts: []partSpec{
+			{Name: "tamper", Flavour: "plain", TimeoutQ: m10, TimeoutT: m60},
+		},
+	}
+}
